@@ -7,6 +7,11 @@ A case is a list of operations (encoding in coq/Model/OpsC13.v):
     [1, c, name, flags]   connection c calls RequestName(name, flags)
     [2, c, name]          ReleaseName         [3, c, name]  GetNameOwner       [4, c, name]  ListQueuedOwners
     [5, c]                connection c's transport is lost
+An operation of kind 1-4 may carry one more, last element [sender]: the text the CLIENT itself wrote into the
+SENDER header field (7) of that call (its own unique name, the unique name of another / a lost / a never
+seen connection, a well-known name, the bus's name).  An ordinary client leaves the field out; the caller of
+a request is the connection the message arrives on whatever that field says, so the reference model is given
+the operation without it.
 Connection 1 is a passive observer: right after its Hello the harness lets it call AddMatch for
 NameOwnerChanged, so that what the bus hands to its broadcast router becomes visible from outside.
 
@@ -38,6 +43,11 @@ ASSUMPTIONS = [
     'error replies are compared by DBus error name class only (InvalidArgs / NameHasNoOwner / a Python exception '
     'leaking as org.txdbus.PythonException.*), never by message text; sender / destination header fields of the '
     'replies and signals are not compared (C14)',
+    'calls whose SENDER header field was filled in by the client (forged-sender family): the property speaks of "the '
+    'caller" / "the requester" / "a client that released a name", i.e. the connection the call arrives on; what a '
+    'client writes into its own message headers is input like the name and the flags, so the reference table is '
+    'given the operation as issued by the connection it arrived on and the claimed sender is withheld from it.  '
+    'Only syntactically valid bus names are claimed',
     'exhaustive tier: histories are shared by the name-table state they reach (one representative history per '
     'state, up to renaming of clients and names, for every state reachable in fewer steps than the bound; every '
     'operation of every client is tried from every such state), which covers every history of that length up '
@@ -95,13 +105,15 @@ class Impl:
         self.lost = failure.Failure(terror.ConnectionDone())
         self.cache = {}
 
-    def raw(self, member, sig, body, serial):
-        key = (member, repr(body), serial)
+    def raw(self, member, sig, body, serial, sender=None):
+        key = (member, repr(body), serial, sender)
         r = self.cache.get(key)
         if r is None:
             m = self.message.MethodCallMessage('/org/freedesktop/DBus', member, interface='org.freedesktop.DBus',
                                                destination='org.freedesktop.DBus', signature=sig, body=body)
             m.serial = serial
+            if sender is not None:
+                m.sender = sender         # header field 7, written by the client itself
             m._marshal(False)
             r = m.rawMessage
             if len(self.cache) < 100000:
@@ -121,6 +133,18 @@ class Impl:
         return msgs
 
 
+def claimed(o):
+    """the SENDER header field the client wrote into this call itself, or None (the ordinary case)"""
+    if o[0] in (1, 2, 3, 4) and isinstance(o[-1], (list, tuple)):
+        return o[-1][0]
+    return None
+
+
+def as_issued(o):
+    """the operation as the reference model sees it: issued by the connection it arrives on"""
+    return o[:-1] if claimed(o) is not None else o
+
+
 def run_impl(im, case):
     """-> list of observations [reply, signals], one per operation"""
     b = im.bus.Bus()
@@ -130,9 +154,9 @@ def run_impl(im, case):
     serial = [100]
     obs = []
 
-    def send(p, member, sig, body, i):
+    def send(p, member, sig, body, i, sender=None):
         serial[0] += 1
-        raw = im.raw(member, sig, body, serial[0])
+        raw = im.raw(member, sig, body, serial[0], sender)
         if (i + len(case)) % 3 == 0:       # every third message arrives in two reads (cut derived from the case)
             k = 1 + (7 * i + 13 * len(case)) % (len(raw) - 1)
             p.dataReceived(raw[:k])
@@ -204,10 +228,10 @@ def run_impl(im, case):
                 p.connectionLost(im.lost)
                 obs.append(drain(5, c, None))
             elif kind == 1:
-                ser = send(p, 'RequestName', 'su', [o[2], o[3]], i)
+                ser = send(p, 'RequestName', 'su', [o[2], o[3]], i, claimed(o))
                 obs.append(drain(1, c, ser))
             else:
-                ser = send(p, MEMBER[kind], 's', [o[2]], i)
+                ser = send(p, MEMBER[kind], 's', [o[2]], i, claimed(o))
                 obs.append(drain(kind, c, ser))
         except Exception as ex:     # an exception escaping the library
             drain(kind, 0, None)
@@ -380,7 +404,7 @@ def evaluate(ctx, cases, res):
     if not cases:
         return
     cases = [[list(o) for o in c] for c in cases]
-    lines = ['(13 %s)' % common.dump(c) for c in cases]
+    lines = ['(13 %s)' % common.dump([as_issued(o) for o in c]) for c in cases]
     outs = common.run_model(lines)
     impl_obs = run_impl_all(ctx, cases)
     vres = PerSignature(res)
@@ -398,6 +422,8 @@ def evaluate(ctx, cases, res):
         for x, ob in zip(c, io):
             k = OPNAME[x[0]]
             dist['ops'][k] = dist['ops'].get(k, 0) + 1
+            if claimed(x) is not None:
+                dist['client_written_sender'] = dist.get('client_written_sender', 0) + 1
             if x[0] in (1, 2):
                 rk = '%s:%r' % (k, ob[0][1:])
                 dist['replies'][rk] = dist['replies'].get(rk, 0) + 1
@@ -419,6 +445,11 @@ def evaluate(ctx, cases, res):
                 break
             if no_noc(a) != no_noc(s):
                 why, sig = why_step(c, i, no_noc(a), no_noc(s))
+                if any(claimed(x) is not None for x in c[:i + 1]):
+                    why += ('; calls of this history carry a SENDER header field written by the client itself (%s): '
+                            'the caller is the connection the call arrived on'
+                            % ', '.join('step %d: %r' % (j, claimed(x)) for j, x in enumerate(c[:i + 1])
+                                        if claimed(x) is not None))
                 vres.violate(c, why, sig)
                 break
     for c in cases[:1] + cases[len(cases) // 2: len(cases) // 2 + 2] + cases[-2:]:
@@ -541,8 +572,68 @@ def gen_random(ctx, n, length):
             else:
                 h.append([5, c])
                 live.remove(c)
+        # now and then a client fills in the SENDER field of its call itself (client-controlled input, like the name)
+        k = 0
+        for j, o in enumerate(h):
+            if o[0] == 0:
+                k += 1
+            elif o[0] in (1, 2, 3, 4) and rng.random() < 0.06:
+                h[j] = o + [[sender_claims(rng, k, names)]]
         h += probes(names[:3])
         cases.append(h)
+    return cases
+
+
+def sender_claims(rng, nconn, names):
+    """what a client may write into the SENDER field of its own call: a unique name handed out so far (its own,
+    another client's, the observer's, one of a lost connection), one not handed out yet, a well-known name, the bus"""
+    r = rng.random()
+    if r < 0.75:
+        return ':1.%d' % rng.randrange(1, nconn + 2)
+    if r < 0.9:
+        return rng.choice(names)
+    return 'org.freedesktop.DBus'
+
+
+def gen_forged(ctx):
+    """calls whose SENDER header field was filled in by the client.  Clients 2, 3, 4 (1 is the observer); from each of a
+    set of name-table situations of 'a.b', every call client 3 can make (8 flag words, release, the two lookups, on
+    'a.b' and on the free name 'c.d') with every kind of claimed sender, followed by a second, ordinary round of
+    requests / releases by everybody (whoever wrongly gained or lost a place shows there) and the observer's probes"""
+    rng = ctx.rng
+    P = [[0], [0], [0], [0]]
+    n = 'a.b'
+    bases = [
+        [],                                                       # free
+        [[1, 2, n, 0]],                                           # 2 owns, no replacement
+        [[1, 2, n, 1]],                                           # 2 owns, allows replacement
+        [[1, 3, n, 0]],                                           # 3 itself owns
+        [[1, 3, n, 1], [1, 2, n, 0]],                             # 3 owns, 2 waits
+        [[1, 2, n, 0], [1, 3, n, 0]],                             # 2 owns, 3 waits
+        [[1, 2, n, 1], [1, 3, n, 0], [1, 4, n, 0]],               # 2 owns (replaceable), 3 and 4 wait
+        [[1, 2, n, 0], [1, 4, n, 0], [1, 3, n, 0]],               # 2 owns, 4 and 3 wait
+        [[1, 4, n, 0], [1, 2, n, 0], [5, 4]],                     # 2 inherited the name from the lost 4
+        [[1, 2, n, 0], [1, 3, n, 0], [5, 2]],                     # 3 inherited the name from the lost 2
+    ]
+    claims = [':1.1', ':1.2', ':1.3', ':1.4', ':1.7', 'org.freedesktop.DBus', n]
+    calls = [o for o in all_ops(1, GOOD, first=3) if o[0] != 5]
+    after = [[2, 3, n], [1, 4, n, 0], [2, 2, n], [1, 3, n, 4], [2, 4, n]]
+    cases = []
+    for b in bases:
+        for o in calls:
+            for cl in claims:
+                tail = [x for x in after if rng.random() < 0.5]
+                cases.append(P + b + [o + [[cl]]] + tail + probes(GOOD))
+    # every call of a history carries a claimed sender
+    for _ in range(ctx.n(150, 3000)):
+        h = []
+        for _ in range(rng.randrange(3, 9)):
+            c = rng.choice([2, 3, 4])
+            k = rng.choice([1, 1, 1, 2, 2, 3, 4])
+            nm = rng.choice(GOOD)
+            o = [1, c, nm, rng.randrange(8)] if k == 1 else [k, c, nm]
+            h.append(o + [[sender_claims(rng, 4, GOOD)]])
+        cases.append(P + h + probes(GOOD))
     return cases
 
 
@@ -571,9 +662,16 @@ def run(ctx, res):
                 'GetNameOwner / ListQueuedOwners / Disconnect on the real Bus through raw bytes, each ending with '
                 'the observer listing owner and queue of every name; exhaustive: every operation of every client '
                 'from every name-table state reachable in fewer steps than the bound; random: length 40 with '
-                'reconnects and odd names; every third message is delivered in two reads.  Non-trivial: at least two state-changing operations.')
+                'reconnects and odd names, 6% of the calls with a SENDER header field written by the client; forged-sender '
+                'family: from 10 situations of a name every call of one client (8 flag words, release, lookups, on the '
+                'contended and on a free name) x 7 claimed senders (own / the owner\'s / a waiting client\'s / the '
+                'observer\'s / an unused unique name, a well-known name, the bus), then ordinary requests and '
+                'releases, plus short histories in which every call carries a claimed sender - all judged by the '
+                'reference table run on the operations as issued by the connection they arrived on; '
+                'every third message is delivered in two reads.  Non-trivial: at least two state-changing operations.')
     evaluate_client_flags(client_flag_cases(), res)
     cases = gen_directed()
+    cases += gen_forged(ctx)
     if ctx.quick:
         cases += gen_exhaustive(ctx, 4, 3, GOOD, res)
         cases += gen_exhaustive(ctx, 3, 4, GOOD, res)
